@@ -2,7 +2,7 @@
    Only statements, each closed by `exact <lemma>` and followed by Print Assumptions.
    (harness/core.py reads the Print Assumptions output in this order.) *)
 From Coq Require Import ZArith List Bool String.
-From Verif Require Import Model.C16_Purity Proofs.C16_Purity Gen.C16_Plugins Proofs.C16_Plugins.
+From Verif Require Import Model.C16_Purity Proofs.C16_Purity Gen.C16_Plugins Proofs.C16_Plugins Model.C16_Resolve Proofs.C16_Resolve.
 Import ListNotations.
 Open Scope Z_scope.
 
@@ -118,6 +118,28 @@ Theorem plugins_listing_complete :
   (no_dup_names parser_rows && no_dup_names writer_rows && no_dup_names fieldtype_rows = true).
 Proof. exact listing_complete. Qed.
 Print Assumptions plugins_listing_complete.
+
+(* plug-in resolution: in EVERY history of listings (names), look-ups (exists / get / load, also failing ones in the
+   "wrong" package) and parse_file calls over all packages, each operation answers as a function of the operation
+   alone - has(package, name) - for the code as it is (no negative cache) and for a negative cache keyed on
+   (package, name); `has`, the directory contents and the parse digests are arbitrary *)
+Theorem resolution_pure : forall has files jobpn dig m ops,
+  m = NoNeg \/ m = NegByPair ->
+  rexec has files jobpn dig m (mkR [] []) ops = map (spec_obs has files jobpn dig) ops.
+Proof. intros. apply rexec_pure; [assumption|apply rinv_empty]. Qed.
+Print Assumptions resolution_pure.
+
+(* quirk c16_negative_cache_by_name: a look-up that fails in package 1 makes module 7 of package 0 unloadable,
+   missing from names(0) and unparsable - unless it was loaded before *)
+Theorem c16_negative_cache_refuted :
+  rexec wit_has (fun _ => [7]) (fun _ => (0, 7)) (fun _ => 99) NegByName (mkR [] []) [RExists 1 7; RGet 0 7; RNames 0; RParse 0]
+    = [OBool false; OBool false; OList []; OBool false] /\
+  rexec wit_has (fun _ => [7]) (fun _ => (0, 7)) (fun _ => 99) NoNeg (mkR [] []) [RExists 1 7; RGet 0 7; RNames 0; RParse 0]
+    = [OBool false; OBool true; OList [7]; ODig 99] /\
+  rexec wit_has (fun _ => [7]) (fun _ => (0, 7)) (fun _ => 99) NegByName (mkR [] []) [RGet 0 7; RExists 1 7; RGet 0 7]
+    = [OBool true; OBool false; OBool true].
+Proof. exact negcache_refuted. Qed.
+Print Assumptions c16_negative_cache_refuted.
 
 (* non-vacuity: the hypotheses of parse_pure are satisfiable and the verdict codes are all reachable *)
 Example bound_example :
